@@ -30,12 +30,41 @@ PRIMS = {
     "fcntl.flock": ("FLOCK", (0,), True),
     "atexit.register": ("OTHER", (), False),
     "tempfile.NamedTemporaryFile": ("CREATE", (), True),
+    # not used by the package today; classified so that a realistic edit is judged, not refused
+    "os.scandir": ("PROBE", (0,), True),
+    "os.access": ("PROBE", (0,), False),
+    "os.path.getmtime": ("PROBE", (0,), True),
+    "os.path.getctime": ("PROBE", (0,), True),
+    "os.path.islink": ("PROBE", (0,), False),
+    "os.path.lexists": ("PROBE", (0,), False),
+    "os.lstat": ("PROBE", (0,), True),
+    "os.truncate": ("WRITE", (0,), True),
+    "os.utime": ("CHMOD", (0,), True),
+    "os.chown": ("CHMOD", (0,), True),
+    "os.rmdir": ("REMOVE", (0,), True),
+    "os.removedirs": ("REMOVE", (0,), True),
+    "shutil.rmtree": ("REMOVE", (0,), True),
+    "os.renames": ("RENAME", (0, 1), True),
+    "os.link": ("CREATE", (1,), True),
+    "os.symlink": ("CREATE", (1,), True),
+    "shutil.copy": ("CREATE", (1,), True),
+    "shutil.copy2": ("CREATE", (1,), True),
+    "shutil.copyfile": ("CREATE", (1,), True),
+    "shutil.copytree": ("CREATE", (1,), True),
+    "os.close": ("OTHER", (), False),
+    "os.fsync": ("OTHER", (), True),
+    "os.sync": ("OTHER", (), False),
+    "os.getpid": ("OTHER", (), False),
+    "os.getcwd": ("OTHER", (), False),
+    "os.fspath": ("OTHER", (), False),
     # open / io.open handled specially (mode decides READ vs CREATE/WRITE)
 }
 
 PURE_PATH_FUNCS = {
     "os.path.join", "os.path.dirname", "os.path.basename", "pathlib.Path",
 }
+IDENTITY_PATH_FUNCS = {"os.path.abspath", "os.path.realpath", "os.path.normpath", "os.path.expanduser", "os.fspath",
+                       "os.path.normcase", "os.fsdecode", "os.fsencode"}
 
 # modules whose every call must be in PRIMS / PURE_PATH_FUNCS / OPEN
 GUARDED_MODULES = ("os", "shutil", "io", "fcntl", "tempfile", "atexit", "pathlib")
